@@ -73,19 +73,21 @@ func (v *Vue) interpolateToWriter(ctx VueContext, w io.Writer, input string) err
 		var err error
 
 		// Try unified pipe/expr evaluation (handles both filters and expressions)
-		if strings.Contains(expr, "|") || helpers.IsFunctionCall(expr) || helpers.IsComplexExpr(expr) {
+		if isNegation(expr) {
+			// A leading negation reads as it does in v-if: the truthiness of the operand, negated
+			val, err = v.evalConditionExpr(ctx, expr)
+			if err != nil {
+				return fmt.Errorf("in expression '{{ %s }}': %w", expr, err)
+			}
+		} else if strings.Contains(expr, "|") || helpers.IsFunctionCall(expr) || helpers.IsComplexExpr(expr) {
 			pipe := parsePipeExpr(expr)
 			val, err = v.evalPipe(ctx, pipe)
 			if err != nil {
 				return fmt.Errorf("in expression '{{ %s }}': %w", expr, err)
 			}
 		} else {
-			// Simple variable reference
-			var ok bool
-			val, ok = ctx.stack.Resolve(expr)
-			if !ok {
-				val = nil
-			}
+			// A variable reference, or a literal
+			val, _ = v.resolveValue(ctx, expr)
 		}
 
 		if val != nil {
@@ -105,6 +107,25 @@ func (v *Vue) interpolateToWriter(ctx VueContext, w io.Writer, input string) err
 	}
 
 	return nil
+}
+
+// isNegation reports an expression that starts with a logical negation ("!x", not "!= x") and is not a pipe.
+func isNegation(expr string) bool {
+	return strings.HasPrefix(expr, "!") && !strings.HasPrefix(expr, "!=") &&
+		!strings.Contains(strings.ReplaceAll(expr, "||", ""), "|")
+}
+
+// resolveValue yields the value of an expression that is neither a pipe, a function call nor an
+// operator expression: a variable path, or failing that what the expression evaluator makes of it
+// (a number, string or boolean literal, a parenthesised or negative operand).
+func (v *Vue) resolveValue(ctx VueContext, expr string) (any, bool) {
+	if val, ok := ctx.stack.Resolve(expr); ok {
+		return val, true
+	}
+	if val, err := v.exprEval.Eval(expr, ctx.stack.EnvMap()); err == nil && val != nil {
+		return val, true
+	}
+	return nil, false
 }
 
 // interpolate escapes interpolated values for HTML safety.
